@@ -584,6 +584,9 @@ def report(ctx, mism, mode):
             cs = [(strip(c), k) for (c, k, _) in meta["units"]]
             key = vlib.canon_key({"job": [case_key(c, k) for (c, k, _) in meta["units"]], "format": meta["format"]})
             case = {"kind": "job", "units": cs, "format": meta["format"], "mode": mode, "observed": obs}
+            c0 = meta["units"][0][0]
+            what = "%s on %d configurations (first: %s): %s" % (" ".join(flags_of(c0)) or "(default flags)", len(cs),
+                                                             describe(c0, meta["units"][0][1]), what)
         ctx.violation(key, "staticcheck (%s): %s" % (mode, what), case)
 
 
